@@ -111,6 +111,15 @@ fn clock_ops(e: &Exec, deltas: &[i64], out: &mut Vec<Op>) {
     }
 }
 
+/// the composite expire-notice-collect step for every time frame that is not yet expired
+fn expire_collect_ops(e: &Exec, out: &mut Vec<Op>) {
+    for (r, exp) in time_frames(e) {
+        if e.now.map(|n| exp > n).unwrap_or(true) {
+            out.push(Op::ExpireCollect { rank: r });
+        }
+    }
+}
+
 fn gc_ops(e: &Exec, step: bool, out: &mut Vec<Op>) {
     let pending = e.store().verif_hooks().gc_pending();
     if !pending.is_empty() {
@@ -158,6 +167,10 @@ pub fn menu(prop: &str, tier: &str, depth: usize, e: &Exec) -> Vec<Op> {
                 out.push(app("", Ctx::Zero, ""));
                 out.push(app("日", Ctx::Zero, ""));
             }
+            // a meta at the edge of what a frame can carry: accepted or refused, never poison
+            if n <= 1 {
+                out.push(Op::Append { topic: "a".into(), ctx: Ctx::Zero, ttl: "".into(), meta: Some(json!({"$deep": 127})), body: None });
+            }
             if e.ctxs.len() < if thorough { 2 } else { 1 } {
                 out.push(Op::Register { ctx: Ctx::Zero, ttl: "".into() });
             }
@@ -172,6 +185,9 @@ pub fn menu(prop: &str, tier: &str, depth: usize, e: &Exec) -> Vec<Op> {
                 }
                 out.push(Op::ImportAfter { rank: 0, topic: "ab".into(), ctx: ctxs.last().unwrap().clone(), ttl: "".into() });
                 out.push(Op::ImportDup { rank: n - 1 });
+                if n <= 2 || thorough {
+                    out.push(Op::ImportOver { rank: n - 1, topic: "ab".into(), ctx: ctxs.last().unwrap().clone(), ttl: "".into() });
+                }
             }
             clock_ops(e, if thorough { &[-1, 0, 1] } else { &[0] }, &mut out);
             gc_ops(e, false, &mut out);
@@ -213,6 +229,11 @@ pub fn menu(prop: &str, tier: &str, depth: usize, e: &Exec) -> Vec<Op> {
             if n > 0 {
                 out.push(Op::ImportOlder { topic: "a".into(), ctx: ctxs.last().unwrap().clone(), ttl: "".into() });
                 out.push(Op::ImportAfter { rank: 0, topic: "a".into(), ctx: ctxs.last().unwrap().clone(), ttl: "".into() });
+            }
+            // a different frame imported under a stored id: other topic, other context
+            if n > 0 {
+                out.push(Op::ImportOver { rank: n - 1, topic: "ab".into(), ctx: Ctx::Zero, ttl: "".into() });
+                out.push(Op::ImportOver { rank: 0, topic: "a".into(), ctx: ctxs.last().unwrap().clone(), ttl: "".into() });
             }
             gc_ops(e, false, &mut out);
             if thorough && n > 0 && e.flushed.is_empty() {
@@ -270,6 +291,15 @@ pub fn menu(prop: &str, tier: &str, depth: usize, e: &Exec) -> Vec<Op> {
             if e.ctxs.len() < 2 && n > 0 {
                 out.push(Op::ImportRegOlder);
             }
+            // a registration imported under the id of an ordinary frame, an ordinary frame
+            // imported under the id of a registration
+            for (r, m) in e.live.values().enumerate() {
+                if m.frame.topic == "xs.context" {
+                    out.push(Op::ImportOver { rank: r, topic: "a".into(), ctx: Ctx::Zero, ttl: "".into() });
+                } else if e.ctxs.len() < 2 {
+                    out.push(Op::ImportOver { rank: r, topic: "xs.context".into(), ctx: Ctx::Zero, ttl: "".into() });
+                }
+            }
             if reopen_ok || (!e.reopened && n > 0 && depth <= 3) {
                 out.push(Op::Reopen);
             }
@@ -305,6 +335,7 @@ pub fn menu(prop: &str, tier: &str, depth: usize, e: &Exec) -> Vec<Op> {
                 out.push(Op::Remove { rank: r });
             }
             clock_ops(e, &[-1, 0, 1], &mut out);
+            expire_collect_ops(e, &mut out);
             gc_ops(e, true, &mut out);
             if reopen_ok {
                 out.push(Op::Reopen);
@@ -330,6 +361,12 @@ pub fn menu(prop: &str, tier: &str, depth: usize, e: &Exec) -> Vec<Op> {
             }
             if n > 2 {
                 out.push(Op::ImportAfter { rank: n - 1, topic: "a".into(), ctx: Ctx::Reg(1), ttl: "".into() });
+                // an ordinary frame re-imported under its id into another context: it moves
+                if e.live.values().last().map(|m| m.frame.topic != "xs.context").unwrap_or(false) {
+                    let cur = e.live.values().last().unwrap().frame.context_id;
+                    let target = if e.ctx_id(&Ctx::Reg(1)) == Some(cur) { Ctx::Reg(0) } else { Ctx::Reg(1) };
+                    out.push(Op::ImportOver { rank: n - 1, topic: "a".into(), ctx: target, ttl: "".into() });
+                }
             }
             gc_ops(e, false, &mut out);
             if thorough && reopen_ok {
